@@ -55,6 +55,25 @@ class ScriptStream(Stream):
         return self.default(n, i)
 
 
+class RunStream(Stream):
+    """the first k requests (of whatever length) are answered with all-ones bytes - a value every sampler must reject - then the default
+    answers: the LENGTH OF A REJECTION RUN as an operand (a pool of spare candidates, a retry counter, a give-up path break at some k)"""
+
+    def __init__(self, k, default, horizon=400):
+        super().__init__({}, default, lambda n: [None], horizon)
+        self.k = k
+
+    def answer(self, n):
+        i = len(self.requests)
+        self.requests.append(n)
+        if i >= self.horizon:
+            self.overrun = True
+            return b"\x01" * n
+        if i < self.k:
+            return b"\xff" * n
+        return self.default(n, i)
+
+
 def explore(run, default, menu, bound, positions, root_filter=None, emit_root=True):
     """run(stream) executes the code under test once with stream.answer as its random source.
     Yields (choices, stream) for every execution."""
